@@ -2,8 +2,8 @@
     (bool, option, unit, list, prod, sumbool, sumor mapped to OCaml's; [nat] stays Peano). *)
 From Coq Require Extraction.
 From Coq Require Import ExtrOcamlBasic.
-From FG Require Import Dag Builder Sched Opts SelfSignal.
+From FG Require Import Dag Builder Sched Opts SelfSignal Yaml.
 Extraction "model.ml"
   run_ops build fngraph_eq iter_order iter_rev_order map_order iter_insertion_order try_visit
-  gi_from_graph gi_iter gi_iter_rev gi_ser gi_de gi_eqb fid empty_dag
+  gi_from_graph gi_iter gi_iter_rev gi_ser gi_de gi_eqb gi_yaml gi_parse fid empty_dag
   mk_cfg init step poll settle run starts sinit sstep mk_scfg is_none with_edges init_carry opts_build mk_cfg_opts mk_scfg_opts step_sig.
